@@ -185,6 +185,25 @@ def corner_worker(text):
     return r
 
 @core.safe
+def many_attributes_worker(arg):
+    """Definitions that are long rather than deeply nested: n fields / variants / constants."""
+    shape, n = arg
+    if shape == "fields":
+        text = "".join("uint8 f%d\n" % i for i in range(n)) + "@sealed\n"
+    elif shape == "variants":
+        text = "@union\n" + "".join("uint8 f%d\n" % i for i in range(n)) + "@sealed\n"
+    elif shape == "constants":
+        text = "".join("uint8 C%d = %d\n" % (i, i % 200) for i in range(n)) + "@sealed\n"
+    else:
+        text = "".join("uint8[<=2] f%d\n" % i for i in range(n)) + "@extent %d\n" % (n * 64)
+    status, res = read_text(text)
+    bad = classify(status, res, "A.1.0.dsdl")
+    r = {"nt": True, "key": "many-%s-%d" % (shape, n)}
+    if bad:
+        r["bad"] = {"kind": "many-attributes", "shape": shape, "deep_structure": n >= 150 and shape in ("fields", "varfields") and "RecursionError" in str(bad[0]), "case": {"shape": shape, "n": n}, "diff": [bad[0]]}
+    return r
+
+@core.safe
 def noise_worker(arg):
     seed, n = arg
     rng = random.Random(seed)
@@ -358,6 +377,8 @@ def run(ctx):
     ctx.exhaustive = False
     run_kinds(ctx)
     c02.consume(ctx, core.pmap(corner_worker, CORNERS, chunksize=2), "corner")
+    many = [(sh, n) for sh in ("fields", "variants", "constants", "varfields") for n in (40, 120, 250, 600)]
+    c02.consume(ctx, core.pmap(many_attributes_worker, many, chunksize=1), "many")
     n = 600 if quick else 6000
     for r in core.pmap(noise_worker, [(ctx.seed * 1000 + k, n // 16) for k in range(16)], chunksize=1):
         if "harness_exception" in r:
